@@ -138,6 +138,14 @@ func native(j *NativeJob) (res *NativeResult) {
 	return res
 }
 
+func descs(b []M) string {
+	var d []string
+	for _, p := range b {
+		d = append(d, fmt.Sprint(p["desc"]))
+	}
+	return strings.Join(d, "; ")
+}
+
 func firstLines(s string, n int) string {
 	l := strings.Split(s, "\n")
 	if len(l) > n {
@@ -210,6 +218,9 @@ func run(c *core.Ctx) error {
 			all = append(all, d3[i])
 		}
 	}
+	if os.Getenv("C09_DEPTH1") != "" {
+		all = chains(1)
+	}
 	for _, ch := range all {
 		exs := exits(ch)
 		if !c.Thorough() {
@@ -232,7 +243,7 @@ func run(c *core.Ctx) error {
 		progs = append(progs, p)
 	}
 	MaxSteps = 20000
-	batch := 40
+	batch := 1
 	c.Logf("instance: %d programs in the Go backend's subset", len(progs))
 	var srcs []string
 	var batches [][]M
@@ -293,16 +304,21 @@ func run(c *core.Ctx) error {
 		case "generate":
 			// the backend refuses (or crashes on) a construct: outside its subset, counted
 			outOfSubset += len(b)
-			c.Note("backend does not accept a batch: " + firstLines(nr.Detail, 3))
+			c.Note("backend does not accept " + descs(b) + ": " + firstLines(nr.Detail, 1))
 			continue
 		case "format", "build":
 			// "the generated Go source compiles" is part of the property
-			rec := map[string]any{"kind": "generated_go_does_not_compile", "stage": nr.Stage, "detail": nr.Detail, "source": srcs[bi],
+			rec := map[string]any{"kind": "generated_go_does_not_compile", "stage": nr.Stage, "detail": nr.Detail, "source": srcs[bi], "desc": descs(b),
 				"summary": fmt.Sprintf("the Go backend accepted the program but its output does not compile (%s): %s", nr.Stage, firstLines(nr.Detail, 4))}
 			c.Violation(rec)
 			continue
-		case "build_timeout", "run_timeout":
+		case "build_timeout":
 			return core.Inconclusivef("native %s", nr.Stage)
+		case "run_timeout":
+			rec := map[string]any{"kind": "native_hangs", "source": srcs[bi], "desc": descs(b), "vm": vr.Stdout, "native": nr.Stdout,
+				"summary": fmt.Sprintf("the native binary does not terminate (60 s) where the VM does: %s", descs(b))}
+			c.Violation(rec)
+			continue
 		}
 		for _, p := range b {
 			pid := p["id"].(int)
